@@ -139,19 +139,53 @@ impl Prop for Unrelated {
         "C19/unrelated".into()
     }
     fn rule(&self) -> String {
-        "accepted multi-module program P from the rich generator, an observed module M, and a change restricted to modules outside M's transitive `use` closure: add a fresh module (in a fresh directory, at the top, below M's own path, next to M, next to a nested M under the name of the first segment of one of M's imports, or below M under the name of one of M's items; sorting before or after everything; often defining short names M uses or types named like M's members or built-ins; sometimes with extern values, rust backend text, impl blocks of its own, a vftable block copied verbatim from a type M uses together with own definitions of the type names it mentions, and impl blocks for a type of M that it imports but does not define), add items (types, enums, extern types, vftable owners named like things M uses) to an unrelated module, remove an unrelated module nobody imports, remove the last item of an unrelated leaf module, reorder the modules. Oracle: when P and P+change are both accepted, <M>.rs is byte-identical. Pairs where P+change is rejected are discarded and counted. Non-trivial: M has a cross-module reference and the change touches a module that shares a short type name with something M's closure uses".into()
+        "accepted multi-module program P from the rich generator (in one of five M also declares a generic-looking extern type `Zbox<T>` over a type T of another module of its closure, held by pointer and by value; fresh modules then often define a type named T), an observed module M, and a change restricted to modules outside M's transitive `use` closure: add a fresh module (in a fresh directory, at the top, below M's own path, next to M, next to a nested M under the name of the first segment of one of M's imports, or below M under the name of one of M's items; sorting before or after everything; often defining short names M uses or types named like M's members or built-ins; sometimes with extern values, rust backend text, impl blocks of its own, a vftable block copied verbatim from a type M uses together with own definitions of the type names it mentions, and impl blocks for a type of M that it imports but does not define), add items (types, enums, extern types, vftable owners named like things M uses) to an unrelated module, remove an unrelated module nobody imports, remove the last item of an unrelated leaf module, reorder the modules. Oracle: when P and P+change are both accepted, <M>.rs is byte-identical. Pairs where P+change is rejected are discarded and counted. Non-trivial: M has a cross-module reference and the change touches a module that shares a short type name with something M's closure uses".into()
     }
     fn gen(&self, t: &mut Tape) -> Case {
         let w = if t.chance(1, 2) { 8 } else { 4 };
         let mut cfg = GenCfg::rich(w);
         cfg.max_mods = 5;
         cfg.max_items = 3 + t.below(10 * crate::driver::scale());
-        let (p1, _, _) = gen_prog(t, cfg);
+        let (mut p1, _, _) = gen_prog(t, cfg);
         let with_uses: Vec<usize> = (0..p1.mods.len()).filter(|i| !p1.mods[*i].uses.is_empty()).collect();
         let obs = if !with_uses.is_empty() && t.chance(3, 4) { with_uses[t.below(with_uses.len() as u64) as usize] } else { t.below(p1.mods.len() as u64) as usize };
         let cl = closure(&p1, obs);
+        // one program in five: M declares a generic-looking extern type whose argument is the name of a type
+        // of another module of its closure (`extern type Zbox<Vec3>;`) and holds it by pointer and by value
+        let mut generic_arg: Option<String> = None;
+        if t.chance(1, 5) {
+            let cands: Vec<String> = cl
+                .iter()
+                .filter(|&&i| i != obs)
+                .flat_map(|&i| p1.mods[i].items.iter().map(|x| x.name().to_string()).collect::<Vec<_>>())
+                .filter(|n| !p1.mods[obs].items.iter().any(|x| x.name() == n) && !p1.mods[obs].ext_types.iter().any(|e| &e.name == n))
+                .collect();
+            if !cands.is_empty() && !p1.mods[obs].items.iter().any(|x| x.name() == "ZboxUser") {
+                let arg = cands[t.below(cands.len() as u64) as usize].clone();
+                let gname = format!("Zbox<{arg}>");
+                p1.mods[obs].ext_types.push(ExtType {
+                    name: gname.clone(),
+                    size: Num::d(8),
+                    align: Num::d(4),
+                });
+                p1.mods[obs].items.push(Item::Type(TypeDef {
+                    vis: true,
+                    name: "ZboxUser".into(),
+                    packed: true,
+                    fields: vec![Field::new("p", Ty::n(&gname).mptr()), Field::new("q", Ty::n(&gname))],
+                    ..Default::default()
+                }));
+                generic_arg = Some(arg);
+            }
+        }
         let used = names_used_by(&p1, &cl);
-        let mut used_vec: Vec<String> = used.iter().cloned().collect();
+        // (a generic-looking name is not something another module can define)
+        let mut used_vec: Vec<String> = used.iter().filter(|n| !n.contains('<')).cloned().collect();
+        if let Some(a) = &generic_arg {
+            if !used_vec.contains(a) {
+                used_vec.push(a.clone());
+            }
+        }
         // now and then also names of M's members and built-ins, as type names elsewhere
         let members = member_names_of(&p1, &cl);
         if !members.is_empty() && t.chance(1, 3) {
@@ -224,6 +258,13 @@ impl Prop for Unrelated {
                             if !m.items.iter().any(|i| i.name() == n) && crate::refmodel::builtin_size(n).is_none() && n != "void" {
                                 m.items.push(simple_type(n, 2 * t.below(6), w));
                             }
+                        }
+                    }
+                    // a type named like the argument of M's generic-looking extern type
+                    if let Some(a) = &generic_arg {
+                        if t.chance(2, 3) && !m.items.iter().any(|i| i.name() == a) {
+                            m.items.push(simple_type(a, 2 * t.below(6), w));
+                            shares = true;
                         }
                     }
                     // extern values, backend text and impl blocks of its own
@@ -456,6 +497,9 @@ impl Prop for Unrelated {
         classes.dedup();
         if c.shares_name {
             classes.push("shares-short-name".into());
+        }
+        if c.p1.mods[obs_idx].ext_types.iter().any(|e| e.name.contains('<')) {
+            classes.push("generic-looking-extern-type".into());
         }
         if f1 == f2 {
             Outcome::pass(cross && c.shares_name).with_classes(classes)
